@@ -11,6 +11,8 @@ NoDev == {}
 DevKept == {"EnvKeptOnAbort"}
 Ideal == INSTANCE ContextInvoke WITH Dev <- NoDev
 Kept == INSTANCE ContextInvoke WITH Dev <- DevKept
+DevAsIs == {"LoadDataTableMutableWithinPage"}
+AsIs == INSTANCE ContextInvoke WITH Dev <- DevAsIs
 Hists == JsonDeserialize(IOEnv.TRACE_FILE)
 KindsOf(h) == [i \in 1..Len(h) |-> h[i].k]
 VARIABLE n
@@ -21,7 +23,7 @@ Verdict(i) ==
   LET h == Hists[i]
       ks == KindsOf(h)
   IN \E exp \in {Ideal!Outcomes(ks)} : \E kp \in {Kept!Outcomes(ks)} :
-       PrintT(<<"CASE", ToJson([i |-> i, bad |-> {j \in 1..Len(h) : h[j] # exp[j]}, exp |-> exp,
+       PrintT(<<"CASE", ToJson([i |-> i, bad |-> {j \in 1..Len(h) : h[j] # exp[j]}, exp |-> exp, asis |-> AsIs!Outcomes(ks),
                                  law |-> Ideal!MeetsDemand(ks), keptExplains |-> (kp = h /\ kp # exp)])>>)
 Emit == (n <= Len(Hists)) => Verdict(n)
 =============================================================================
